@@ -1869,6 +1869,9 @@ def gen_call_program(rng, variant):
         body.append(rng.choice([("assign", x, f"{x} + 'x'"), ("aug", x, "+", "'yz'"), ("assign", x, repr(rng.choice(STRS) + "rs"))]))
     for x in wi:
         body.append(rng.choice([("assign", x, f"{x} + 1"), ("aug", x, "+", "2"), ("assign", x, "7")]))
+    if ws and wi and rng.random() < 0.5:
+        # the body writes both by ONE tuple assignment (temporaries inside the function)
+        body = [st for st in body if st[1] not in (ws[0], wi[0])] + [("tuple", [ws[0], wi[0]], [f"{ws[0]} + 'x'", f"{wi[0]} + 1"])]
     rng.shuffle(body)
     if len(body) > 1 and rng.random() < 0.25:
         body[-1] = ("if", [body[-1]], [])
@@ -1939,7 +1942,8 @@ def gen_call_program(rng, variant):
     if rng.random() < 0.3:
         first.append(("val", m))
     x = rng.choice(written)
-    first += rebind(x)
+    if rng.random() < 0.75:
+        first += rebind(x)      # else: nothing re-binds x between the def and the first call - it was forgotten AT the def
     rest = []
     for j in range(n_calls):
         seg = folds(x)
